@@ -101,10 +101,11 @@ func c03Directed(w *c03World, rng *rand.Rand, start c03Start, startWith c03Start
 		}
 		out = append(out, r)
 	}
-	// (3b) deep slash, then "undelegate my whole position" is rejected: the share needed for the reported position
-	// (TokensFromShares rounds half-up at 10^-18, then truncates) exceeds the staker's share when shares/token > 2
+	// (3b) regression scenario for the repaired acceptance defect (fix 56b99a6): after two slashes the share needed for the
+	// reported position (TokensFromShares rounds half-up at 10^-18, then truncates) exceeds the staker's share by rounding
+	// dust; "undelegate my whole position" (56) must be accepted (mon_accept) and remove all of the staker's shares
 	{
-		r := start(4, []string{"kf-C03-accept-deep-slash"})
+		r := start(4, []string{"regress-C03-accept-deep-slash"})
 		r.deposit(0, 0, c03I(548170), false)
 		r.delegate(0, 0, 2, c03I(548170))
 		r.deposit(1, 0, c03I(25), false)
@@ -136,6 +137,26 @@ func c03Directed(w *c03World, rng *rand.Rand, start c03Start, startWith c03Start
 		}
 		out = append(out, r)
 	}
+	// (3d) native token: bank account -> escrow on delegation, slash of the native pool and of a native pending
+	// undelegation (coins stay in escrow), completion paid from the escrow; a second account on another operator
+	{
+		r := start(2, nil)
+		r.delegateN(0, 2, c03I(9_000))
+		r.delegateN(1, 2, c03I(1_000))
+		r.delegateN(1, 0, c03I(4_000))
+		r.undelegateN(0, 2, c03I(3_000), r.nextNonce(), r.newTx())
+		r.slash(2, 2, sdkmath.LegacyMustNewDecFromStr("0.002"), 1) // infraction height = current height: the record is slashed too
+		r.undelegateN(1, 0, c03I(4_000), r.nextNonce(), r.newTx())
+		for _, rk := range r.recordKeys() {
+			r.holdOp(rk, false)
+		}
+		r.endBlock()
+		r.undelegateN(0, 2, r.positionN(0, 2), r.nextNonce(), r.newTx())
+		for i := 0; i < 12; i++ {
+			r.endBlock()
+		}
+		out = append(out, r)
+	}
 	// (4..) repaired prefix scan: at height h a genesis-loaded record completes at a height whose hex starts with hex(h)
 	for _, hc := range [][2]uint64{{1, 19}, {1, 16}, {2, 0x2f}, {1, 0x100}, {0xa, 0xa0}, {0x12, 0x123}, {3, 0x3f}, {0xff, 0xff0}} {
 		r := start(int64(hc[0]), nil)
@@ -156,6 +177,12 @@ func c03Random(w *c03World, rng *rand.Rand, start c03Start, suite string) *c03Ru
 	r := start(h0, nil)
 	nSt := 2 + rng.Intn(3)
 	nOps := 8 + rng.Intn(22)
+	native := rng.Intn(5) < 2 // this history also uses the native token
+	if native {
+		for i := 0; i < 1+rng.Intn(2); i++ {
+			r.delegateN(rng.Intn(3), rng.Intn(3), c03I(int64(rng.Intn(5_000_000)+1)))
+		}
+	}
 	// warm-up: deposits and delegations so that the interesting ops have something to act on
 	for i := 0; i < nSt; i++ {
 		as := rng.Intn(2)
@@ -167,6 +194,20 @@ func c03Random(w *c03World, rng *rand.Rand, start c03Start, suite string) *c03Ru
 	for k := 0; k < nOps; k++ {
 		st, as, op := rng.Intn(nSt), rng.Intn(2), rng.Intn(3)
 		x := rng.Intn(100)
+		if native && rng.Intn(4) == 0 {
+			acc := rng.Intn(3)
+			if rng.Intn(2) == 0 {
+				r.delegateN(acc, op, c03Amount(rng, c03I(int64(rng.Intn(3_000_000)))))
+			} else {
+				pos := r.positionN(acc, op)
+				for try := 0; try < 6 && pos.IsZero(); try++ {
+					acc, op = rng.Intn(3), rng.Intn(3)
+					pos = r.positionN(acc, op)
+				}
+				r.undelegateN(acc, op, c03Amount(rng, pos), r.nextNonce(), r.newTx())
+			}
+			continue
+		}
 		switch {
 		case x < 10:
 			r.deposit(st, as, c03Amount(rng, c03I(int64(rng.Intn(2_000_000)))), false)
